@@ -17,6 +17,7 @@ import (
 	"strconv"
 	"strings"
 	"sync"
+	"sync/atomic"
 	"syscall"
 	"time"
 	"unsafe"
@@ -298,13 +299,22 @@ type histRun struct {
 	TimedOut bool
 }
 
+// childTimeouts counts children that had to be killed after their deadline. Once a dozen have hung, the code under
+// test evidently blocks; further children are not started (the check reports an incomplete run instead of taking hours).
+var childTimeouts int64
+
+func tooManyHung() bool { return atomic.LoadInt64(&childTimeouts) > 12 }
+
 func runHist(sc *histScript, unpriv bool, wrapper ...string) *histRun {
+	if tooManyHung() {
+		return &histRun{TimedOut: true, Stderr: "not started: too many children hung before"}
+	}
 	self, _ := os.Executable()
 	if unpriv {
 		self = publicSelf()
 	}
 	in, _ := json.Marshal(sc)
-	cctx, cancel := context.WithTimeout(context.Background(), 60*time.Second)
+	cctx, cancel := context.WithTimeout(context.Background(), 25*time.Second)
 	defer cancel()
 	argv := append(append([]string{}, wrapper...), self, "child", "hist")
 	cmd := exec.CommandContext(cctx, argv[0], argv[1:]...)
@@ -319,6 +329,7 @@ func runHist(sc *histScript, unpriv bool, wrapper ...string) *histRun {
 	hr := &histRun{Stderr: stderr.String()}
 	if cctx.Err() != nil {
 		hr.TimedOut = true
+		atomic.AddInt64(&childTimeouts, 1)
 	}
 	if ee, ok := err.(*exec.ExitError); ok {
 		if ws, ok := ee.Sys().(syscall.WaitStatus); ok {
